@@ -45,7 +45,8 @@ def _idx(keyid):
 
 
 def same_key(k1, k2):
-    return k1 is not None and k2 is not None and _idx(k1) == _idx(k2)
+    """Do two key ids denote the same NaCl box?  (Box(a_priv, b_pub) == Box(b_priv, a_pub): unordered pair.)"""
+    return k1 is not None and k2 is not None and set(_idx(k1)) == set(_idx(k2))
 
 
 def wamp_key(keyid, view):
@@ -225,7 +226,8 @@ class Pair:
         self.A.close_world()
 
     # -- responder set-up ----------------------------------------------------------------------
-    def ensure_sub(self, topic):
+    def ensure_sub(self, topic, match=None):
+        """Subscribe B to ``topic`` (``match`` = None | "prefix" | "wildcard"); the handler records what it is given."""
         if topic in self.subs:
             return self.subs[topic]
         from autobahn.wamp.types import SubscribeOptions
@@ -234,7 +236,7 @@ class Pair:
             d = kwargs.pop("details")
             self.events.append((topic, d.topic, list(args), kwargs, d.enc_algo))
 
-        o = Outcome(self.b.subscribe(handler, topic, options=SubscribeOptions(details_arg="details")))
+        o = Outcome(self.b.subscribe(handler, topic, options=SubscribeOptions(match=match, details_arg="details")))
         m = [x for x in self.B.recv() if x[0] == SUBSCRIBE]
         sid = self.next_id()
         self.B.send([SUBSCRIBED, m[-1][1], sid])
@@ -262,6 +264,8 @@ class Pair:
                 return CallResult(*act[1], **act[2])
             if act[0] == "raise":
                 raise ApplicationError(act[1], *act[2], **act[3])
+            if act[0] == "raise_rt":
+                raise RuntimeError(*act[1])
             raise RuntimeError("bad script %r" % (act,))
 
         o = Outcome(self.b.register(endpoint, proc, options=RegisterOptions(details_arg="details")))
